@@ -25,7 +25,7 @@ from harness import project_gen as PG
 from harness import project_impl as PI
 
 PROJECT = "project"
-PROPS = ["Octave.Props.C14"]
+PROPS = ["Octave.Props.C14", "Octave.Props.C14dup"]
 ANCHORS = [("octave_mcp/core/projector.py", "_filter_fields"), ("octave_mcp/core/projector.py", "project"),
            ("octave_mcp/mcp/eject.py", "_ast_to_dict"), ("octave_mcp/mcp/eject.py", "_convert_value"),
            ("octave_mcp/mcp/eject.py", "_convert_block"), ("octave_mcp/mcp/eject.py", "_format_markdown_value"),
